@@ -174,38 +174,49 @@ func TestC10_WordSweep(t *testing.T) {
 
 func TestC10_Respell(t *testing.T) {
 	cov.Rule(c10Rule)
-	k := 0
-	rapidCheck(t, func(rt *rapid.T) {
-		var a string
-		var lang int64
-		interesting := true
-		switch rapid.IntRange(0, 9).Draw(rt, "source") {
-		case 0, 1, 2, 3: // valid sentence
-			l := gen.Lang().Draw(rt, "lang")
-			a = strings.Join(ref.Words(l, gen.ValidIndices().Draw(rt, "idx")), " ")
-			lang = int64(implLang[l])
-			cov.Class("source=valid")
-		case 4, 5, 6, 7: // one defect away
-			m := gen.Defect().Draw(rt, "mut")
-			a, lang = m.Text, int64(implLang[m.Lang])
-			cov.Class("source=defect")
-		default:
-			a = gen.UString(12).Draw(rt, "ustr")
-			lang = int64(implLang[gen.Lang().Draw(rt, "lang")])
-			interesting = false
-			cov.Class("source=ustring")
-		}
-		if rapid.IntRange(0, 7).Draw(rt, "other-language") == 0 {
-			lang = rapid.OneOf(rapid.Int64Range(-2, 12), rapid.Int64()).Draw(rt, "any-lang")
-			interesting = false
-		}
-		r := gen.Respell(a).Draw(rt, "b")
-		cov.ClassN("unsound-variants-discarded", r.Unsound)
-		c := &equivCheckCase{Lang: lang, A: text(a), B: text(r.S), Method: r.Method}
-		c10Record(c, interesting)
-		if k++; k%499 == 1 {
-			cov.Sample("c10.equiv", c)
-		}
-		judge(rt, "c10.equiv", c10Check, c)
-	})
+	rapidCheck(t, c10RespellProp)
+}
+
+var c10RespellPropK int
+
+// c10RespellProp is the rapid property behind the test above and the native fuzz target below.
+func c10RespellProp(rt *rapid.T) {
+	var a string
+	var lang int64
+	interesting := true
+	switch rapid.IntRange(0, 9).Draw(rt, "source") {
+	case 0, 1, 2, 3: // valid sentence
+		l := gen.Lang().Draw(rt, "lang")
+		a = strings.Join(ref.Words(l, gen.ValidIndices().Draw(rt, "idx")), " ")
+		lang = int64(implLang[l])
+		cov.Class("source=valid")
+	case 4, 5, 6, 7: // one defect away
+		m := gen.Defect().Draw(rt, "mut")
+		a, lang = m.Text, int64(implLang[m.Lang])
+		cov.Class("source=defect")
+	default:
+		a = gen.UString(12).Draw(rt, "ustr")
+		lang = int64(implLang[gen.Lang().Draw(rt, "lang")])
+		interesting = false
+		cov.Class("source=ustring")
+	}
+	if rapid.IntRange(0, 7).Draw(rt, "other-language") == 0 {
+		lang = rapid.OneOf(rapid.Int64Range(-2, 12), rapid.Int64()).Draw(rt, "any-lang")
+		interesting = false
+	}
+	r := gen.Respell(a).Draw(rt, "b")
+	cov.ClassN("unsound-variants-discarded", r.Unsound)
+	c := &equivCheckCase{Lang: lang, A: text(a), B: text(r.S), Method: r.Method}
+	c10Record(c, interesting)
+	if c10RespellPropK++; c10RespellPropK%499 == 1 {
+		cov.Sample("c10.equiv", c)
+	}
+	judge(rt, "c10.equiv", c10Check, c)
+}
+
+// FuzzC10 drives the same property coverage-guided (thorough tier): the fuzzer's bytes are
+// rapid's source of choices.
+func FuzzC10(f *testing.F) {
+	cov.Rule(c10Rule)
+	f.Fuzz(rapid.MakeFuzz(c10RespellProp))
 }
